@@ -451,7 +451,9 @@ func HasConditionalID(doc *ast.QueryDocument, ss ast.SelectionSet, parentType st
 				for t.Elem != nil {
 					t = t.Elem
 				}
-				if HasConditionalID(doc, sel.SelectionSet, t.NamedType, false) {
+				// a composite field reached under a condition may be merged with an unconditional occurrence of
+				// the same response key, so its sub-selections stay conditional
+				if HasConditionalID(doc, sel.SelectionSet, t.NamedType, cond || len(sel.Directives) > 0) {
 					return true
 				}
 			}
